@@ -324,10 +324,6 @@ class Check(PropertyCheck):
                     problems.append("after SIGKILL operand %r is neither intact nor completely converted (input %s, output %s)" % (
                         op, fl.short(a_in) if a_in else "absent", fl.short(a_out) if a_out else "absent"))
             elif not (first or second):
-                if intact and complete and not cfg["keep"] and a_in is not None and real["outcome"] in ("E1", "KINT", "KTERM"):
-                    # stopped between close(output) and unlink(input): both files complete -- nothing lost; counted, not flagged
-                    self.both_present = getattr(self, "both_present", 0) + 1
-                    continue
                 problems.append("operand %r ends in neither state: input %s, output %r %s, exit %s" % (
                     op, "intact" if intact else (fl.short(a_in) if a_in else "absent"), q,
                     "complete" if complete else (fl.short(a_out) if a_out else "absent"), real["outcome"]))
@@ -358,7 +354,6 @@ class Check(PropertyCheck):
         self.notes.append("status/state pairing: %d injected runs ended with exit 1 or death by INT/TERM although the last operand was "
                           "already completely converted (close(input) failing, or a signal taken at/after sti()) -- no data lost; "
                           "see C16_status_pairing_refuted" % pairing["exit1_or_signal_with_second_state"])
-        self.notes.append("runs stopped between close(output) and unlink(input) with both files complete: %d" % getattr(self, "both_present", 0))
         self.notes.append("finding sigterm-swallowed: in %d injected runs a SIGTERM raised by a worker thread at one of its last write() calls "
                           "was overwritten by the completion signal SIGUSR2 (signal_handler keeps only the last signal in caught_index); "
                           "lbzip2 then finished normally with status 0 instead of terminating" % getattr(self, "lost_term", 0))
